@@ -317,7 +317,8 @@ pub fn generate_program_biased(rng: &mut Rng, case: &mut Case, thorough: bool, f
                     // bank 1 (the tag a freshly created cache starts with) is over-represented on purpose
                     let b = if rng.chance(1, 3) { 1 } else { 1 + rng.below(banks as u64 - 1) as u8 };
                     a.emit(&[0x3e, b, 0xea, 0x00, 0x20 + rng.below(0x20) as u8]);
-                    let e = 0x4000 + 0x100 * rng.below(4) as u16;
+                    // entry 4 (0x4400) is the routine that remaps the bank it is running from
+                    let e = 0x4000 + 0x100 * if rng.chance(1, 5) { 4 } else { rng.below(4) as u16 };
                     a.emit(&[0xcd, e as u8, (e >> 8) as u8]);
                     if rng.chance(1, 6) {
                         // the bank count itself: wraps to bank 0, so 0x4000 shows the RST 00 routine of the fixed bank
@@ -386,9 +387,22 @@ pub fn generate_program_biased(rng: &mut Rng, case: &mut Case, thorough: bool, f
     case.set("prog_len", code.len() as i64);
     case.blobs.insert(patch_key(MAIN as usize), code);
 
-    // ---- far routines in the switchable banks (different per bank, never touch bank registers)
+    // ---- far routines in the switchable banks (different per bank; entries 0-3 never touch bank registers, entry 4 selects
+    // another bank in mid-block and carries on with what that bank holds behind the write)
     if cart_type != 0 {
+        let pre = rng.below(3) as usize;
         for b in 1..banks {
+            {
+                let to = 1 + rng.below(banks as u64 - 1) as u8;
+                let mut r = Asm::new(0x4400);
+                r.emit(&vec![0x0cu8; pre]);
+                r.emit(&[0x3e, to, 0xea, 0x00, 0x20 + rng.below(0x20) as u8]);
+                // continuation, reached under the bank selected by whichever bank's first half ran
+                r.emit(&[0x3e, b as u8, 0xea, 0xa4, 0xc0]);
+                filler(&mut r, rng, 3);
+                r.emit(&[0xc9]);
+                case.blobs.insert(patch_key(rom_offset(0x4400, b)), r.finish());
+            }
             for e in 0..4u16 {
                 let mut r = Asm::new(0x4000 + 0x100 * e);
                 r.emit(&[0x3e, b as u8, 0xea, 0xa0 + e as u8, 0xc0]);
@@ -403,7 +417,7 @@ pub fn generate_program_biased(rng: &mut Rng, case: &mut Case, thorough: bool, f
             }
         }
     } else {
-        for e in 0..4u16 {
+        for e in 0..5u16 {
             case.blobs.insert(patch_key(0x4000 + 0x100 * e as usize), vec![0xc9]);
         }
     }
